@@ -398,6 +398,13 @@ class Explorer:
         if z3.is_true(cond):
             self.stats.proved += 1
             return True
+        if z3.is_eq(cond) and cond.arg(0).sort() == z3.RealSort():
+            # polynomial identity: sum-of-monomials normal form of lhs - rhs (z3 rewriter)
+            d = z3.simplify(cond.arg(0) - cond.arg(1), som=True, hoist_mul=False)
+            if z3.is_rational_value(d) and d.numerator_as_long() == 0:
+                self.stats.proved += 1
+                self.stats.normal_form = getattr(self.stats, "normal_form", 0) + 1
+                return True
         r = self._check("q_assert", z3.Not(cond))
         if r == z3.unsat:
             self.stats.proved += 1
